@@ -74,6 +74,12 @@ def merge_episodes(run, sb, rng, tier):
         ns = rng.randint(2, 8) if tier != "quick" else rng.randint(2, 5)
         samples = gen.related_samples(rng, k, ns, length=rng.randint(2 * k + 5, 3 * k + 30))
         names = ["m%d_%d" % (i, j) for j in range(ns)]
+        if i % 2 == 0:
+            # a split k-mer private to one sample and met there with all four middle bases: its row is 'N' in that
+            # sample and missing in every other one, in every file it passes through
+            h = (k - 1) // 2
+            w = gen.rand_seq(rng, k)
+            samples[rng.randrange(ns)].append("N".join(w[:h] + m + w[h + 1:] for m in "ACGT"))
         # partition into 2..4 files (contiguous groups, then shuffled order)
         nf = rng.randint(2, min(4, ns))
         cuts = sorted(rng.sample(range(1, ns), nf - 1))
@@ -270,41 +276,63 @@ def history_episodes(run, sb, rng, tier):
         if not all(e.get("ok") for e in built):
             continue
         sb.merge(["p%d" % fi for fi in range(nf)], "cur")
+        cur = "cur"
         cur_names = list(names)
         nops = rng.randint(1, 8)
+        nmerged = 0
         ops_done = ["merge"]
         for _ in range(nops):
             choice = rng.random()
             if choice < 0.2 and len(cur_names) > 2:
                 d = rng.sample(cur_names, rng.randint(1, min(2, len(cur_names) - 2)))
-                sb.delete("cur", d, via=rng.choice(["args", "file"]))
+                sb.delete(cur, d, via=rng.choice(["args", "file"]))
                 cur_names = [n for n in cur_names if n not in d]
                 ops_done.append("delete")
+            elif choice < 0.3 and nmerged < 2:
+                # merge after filter: another file joins, in either order; half of the time it has been emptied first
+                # (a single sample has only constant sites) - an empty file still carries its sample
+                j = rng.randrange(ns)
+                xn = "h%d_x%d" % (i, nmerged)
+                e = sb.build("ex%d" % nmerged, [samples[j]], [xn], k, rc)
+                if not e.get("ok"):
+                    continue
+                if rng.random() < 0.5:
+                    sb.weed("ex%d" % nmerged, None, False, [0, 1000], "no-const", False, False, False)
+                nxt = "cur_m%d" % nmerged
+                if rng.random() < 0.5:
+                    sb.merge([cur, "ex%d" % nmerged], nxt)
+                    cur_names = cur_names + [xn]
+                else:
+                    sb.merge(["ex%d" % nmerged, cur], nxt)
+                    cur_names = [xn] + cur_names
+                cur = nxt
+                nmerged += 1
+                ops_done.append("merge-in")
             elif choice < 0.5:
                 w = weed_set(rng, samples, k)
                 if not any(_has_window(r, k) for r in w):
                     continue
-                sb.weed("cur", w, rng.random() < 0.3, [0, 1000], "no-filter", False, False, False)
+                sb.weed(cur, w, rng.random() < 0.3, [0, 1000], "no-filter", False, False, False)
                 ops_done.append("weed")
             else:
                 minf = rng.choice([[0, 1000], [0, 1000], [500, 1000], [1000, 1000]])
                 filt = rng.choice(FILTERS)
                 am = rng.random() < 0.5
                 mask = rng.random() < 0.25
-                sb.weed("cur", None, False, minf, filt, am, mask, rng.random() < 0.2)
+                sb.weed(cur, None, False, minf, filt, am, mask, rng.random() < 0.2)
                 ops_done.append("filter" + ("-am" if am else ""))
-        sb.nk_event("cur")
+        sb.nk_event(cur)
         n = len(cur_names)
         run.evaluations += 1
         # probe battery: results may depend only on the logical content
         for filt in FILTERS:
             for am in (False, True):
                 minf = rng.choice([[0, 1000], [(1000 * j) // n, 1000] if (j := rng.randint(1, n)) else None])
-                sb.align("cur", n, minf, filt, am, rng.random() < 0.3, rng.random() < 0.3)
-        sb.weed("cur", None, False, [500, 1000], "no-filter", False, False, False, out="probe_w")
-        sb.delete("cur", [cur_names[0]], out="probe_d") if n > 1 else None
+                sb.align(cur, n, minf, filt, am, rng.random() < 0.3, rng.random() < 0.3)
+        sb.weed(cur, None, False, [500, 1000], "no-filter", False, False, False, out="probe_w")
+        sb.delete(cur, [cur_names[0]], out="probe_d") if n > 1 else None
         # observational equivalence with a FRESH file of the same logical content (C10): distance and map
-        t = sb.nk("cur")
+        t = sb.nk(cur)
         if t is not None and t["rows"]:
             sb.import_table("twin", t["k"], t["rc"], t["names"], t["rows"])
             import os
@@ -315,10 +343,10 @@ def history_episodes(run, sb, rng, tier):
                               ("map", ["map", ref, "PATH", "--ambig-mask"]),
                               ("map-vcf", ["map", ref, "PATH", "-f", "vcf", "--repeat-mask"])):
                 outs = []
-                for f in ("cur", "twin"):
+                for f in (cur, "twin"):
                     rc_, so_, se_ = vlib.ska_cli([sb.path(f) if a == "PATH" else a for a in args])
                     outs.append((rc_, sorted(so_.decode().splitlines()) if cmd.startswith("distance") else so_.decode()))
-                sb.emit("twin", {"file": "cur", "cmd": cmd}, same=(outs[0] == outs[1]), rc=outs[0][0])
+                sb.emit("twin", {"file": cur, "cmd": cmd}, same=(outs[0] == outs[1]), rc=outs[0][0])
                 run.evaluations += 1
         if sum(1 for o in ops_done if o != "merge") >= 2 and any(o.endswith("-am") for o in ops_done):
             run.nontriv(["hist", k, rc, samples, ops_done, i])
